@@ -93,3 +93,66 @@ Theorem C01_validate_from_source : forall id at_ l,
   Model.ValidateIR.run_validate Gen.LoginValidate.gen_validate l = Model.Tracker.validate (Proofs.ValidateTie.abs_login id at_ l).
 Proof. exact Proofs.ValidateTie.validate_from_source. Qed.
 Print Assumptions C01_validate_from_source.
+
+(* ---------- which sshd PID a login carries: from the RECORD on the sshd pipe, through the source ----------
+   The identity theorems above name a login by its sshd PID.  That PID is produced by the sshd pipeline:
+   SyslogIngester.Process -> ParseSyslogMessage cut the record into (PID token, message), ProcessSshdLogEntry hands
+   that pair to the handlers, the accepted-login handlers forward strconv.Atoi of the token.  [record_result]
+   (Proofs/RecordLogin.v) is that path read through the translations REGENERATED on every run from
+   ingesters/syslog/syslogingester.go (Gen/PureFuncs.v: gen_process_line) and from ProcessSshdLogEntry
+   (Gen/EntryMetrics.v: gen_entry), followed by the sshd model whose handlers and dispatch are generated too.
+
+   For EVERY record (any bytes, any writer behaviour, any hand-off outcome) the pipeline is defined, and a login
+   it hands to the correlator carries the PID written in the record's FIRST COLUMN — the text in front of the
+   record's first blank — as strconv.Atoi reads it; nothing else in the record (no "sshd[N]:" tag, no second
+   "<N> " later in the text, no embedded message) can name the sshd process a login is attributed to.  A changed
+   ParseSyslogMessage / Process (another way of finding the PID, a call the translator does not know) changes or
+   breaks the generated definitions and re-opens these obligations. *)
+From Coq Require Import String.
+From AM Require Lib.Bytes Lib.GoStrings Model.Syslog Model.SshdProc Model.PipelineSshd.
+From AM Require Gen.PureFuncs Gen.EntryMetrics Proofs.RecordLogin.
+Theorem C01_login_pid_is_record_first_column : forall c line wok ready,
+  exists r, Proofs.RecordLogin.record_result c line wok ready = Some r /\
+    forall f, In f (Model.SshdProc.r_forwards r) ->
+      Model.SshdProc.atoi (Proofs.RecordLogin.first_column line) = Some (Model.SshdProc.f_pid f).
+Proof. exact Proofs.RecordLogin.record_login_pid. Qed.
+Print Assumptions C01_login_pid_is_record_first_column.
+
+(* the same for the login as the correlator's model sees it ([abs_login], Model/PipelineSshd.v: l_pid = the
+   forwarded PID): the [l_pid] that C01_identity speaks about is the first column of the record that produced it *)
+Theorem C01_tracker_login_pid_is_record_first_column : forall c line wok ready k at_,
+  exists r, Proofs.RecordLogin.record_result c line wok ready = Some r /\
+    (Model.SshdProc.r_forwards r <> [] ->
+     Model.SshdProc.atoi (Proofs.RecordLogin.first_column line) = Some (l_pid (Model.PipelineSshd.abs_login k at_ r))).
+Proof. exact Proofs.RecordLogin.record_login_pid_tracker. Qed.
+Print Assumptions C01_tracker_login_pid_is_record_first_column.
+
+(* the record format of the contrib template, "<pid> <padding><message>\n" (pid token without blank, message not
+   starting with a blank, otherwise ANY bytes — in particular client-chosen text that looks like another record):
+   the pipeline's result is the processor's result for (pid, message); a login is handed to the correlator only when
+   the message BEGINS with one of the two accepted forms, and it carries the PID of the record's first column *)
+Theorem C01_framed_record_login : forall c tok n msg wok ready k at_,
+  ~ In Model.Syslog.sp tok -> hd_error msg <> Some Model.Syslog.sp ->
+  let r := Model.SshdProc.process c tok msg wok ready in
+  Proofs.RecordLogin.record_result c (tok ++ Model.Syslog.sp :: repeat Model.Syslog.sp n ++ msg ++ [Model.Syslog.nl]) wok ready = Some r /\
+  (Model.SshdProc.r_forwards r <> [] ->
+     Model.SshdProc.atoi tok = Some (l_pid (Model.PipelineSshd.abs_login k at_ r)) /\
+     (Lib.Bytes.has_prefix (Lib.Bytes.s2l "Accepted publickey"%string) msg = true \/
+      Lib.Bytes.has_prefix (Lib.Bytes.s2l "Accepted password"%string) msg = true)).
+Proof. exact Proofs.RecordLogin.framed_record_login. Qed.
+Print Assumptions C01_framed_record_login.
+
+(* Non-vacuity and the shape of the hostile input: an "Invalid user" record of sshd process 100 whose client-chosen
+   name is a complete accepted-password message carrying another process's syslog tag forwards NO login; the genuine
+   record of process 200 forwards one login, with PID 200. *)
+Example C01_record_example :
+  let c := {| Model.SshdProc.c_node := Lib.Bytes.s2l "n"%string; Model.SshdProc.c_mid := Lib.Bytes.s2l "m"%string |} in
+  option_map (fun r => map Model.SshdProc.f_pid (Model.SshdProc.r_forwards r))
+    (Proofs.RecordLogin.record_result c
+       (Lib.Bytes.s2l "100 Invalid user x sshd[200]: Accepted password for alice from 10.0.0.5 port 5000 ssh2 from 10.0.0.9 port 4000"%string ++ [Model.Syslog.nl]) true true)
+  = Some [] /\
+  option_map (fun r => map Model.SshdProc.f_pid (Model.SshdProc.r_forwards r))
+    (Proofs.RecordLogin.record_result c
+       (Lib.Bytes.s2l "200 Accepted password for bob from 10.0.0.7 port 6000 ssh2"%string ++ [Model.Syslog.nl]) true true)
+  = Some [200%Z].
+Proof. vm_compute. split; reflexivity. Qed.
